@@ -36,6 +36,9 @@ static Fault corrupt(std::string &doc, Rng &g, int kindsel) {
     size_t eq = eqs[g.below(eqs.size())]; size_t ns = line.find_last_of(" <", eq); std::string an = line.substr(ns + 1, eq - ns - 1); size_t ve = line.find('"', eq + 2); if (ve == std::string::npos) { f.kind = "attr"; f.what = "none"; break; }
     static const char *vals[] = {"", "0", "-1", "4294967295", "4294967296", "18446744073709551615", "99999999999999999999999", "0x", "0xffffffff,0xffffffff,0xffffffff", "0x00000001", "0xf...f", "abc", "1e400", "2", "NaN", "&amp;", "&bogus;", "\t", "255", "65536", "Machine", "PU", "Group", "NUMANode", "Misc", "Bridge", "L9Cache", "0-", "1000000", "Capacity", "Locality", "Bandwidth", "Latency", "1", "3", "7", "L2Cache", "MemCache", "OSDevice", "PCIDevice", "18446744073709551000"};
     std::string nv = vals[g.below(sizeof vals / sizeof *vals)]; if (g.chance(1, 6)) { nv = line.substr(eq + 2, ve - eq - 2); if (!nv.empty()) nv[g.below(nv.size())] = (char)('0' + g.below(10)); }
+    // one time in five: the value the same attribute has somewhere else in the document (two sectors of the file exchanged: a NUMA node with another node's
+    // nodeset, an object with another object's gp_index, depth, cpuset ...) - values that pass every syntactic test
+    if (g.chance(1, 5)) { std::vector<std::string> others; std::string key = " " + an + "=\""; for (size_t q = doc.find(key); q != std::string::npos && others.size() < 64; q = doc.find(key, q + 1)) { size_t b = q + key.size(), e = doc.find('"', b); if (e != std::string::npos) others.push_back(doc.substr(b, e - b)); } if (!others.empty()) nv = others[g.below(others.size())]; }
     doc.replace(ln.first + eq + 2, ve - eq - 2, nv); f.kind = "attr"; f.what = elem_of(line) + "." + an; break; }
   case 8: { auto ls = lines_of(doc); auto &ln = ls[pick_line(doc, ls, g)]; f.kind = "drop_line"; f.what = elem_of(doc.substr(ln.first, ln.second)); doc.erase(ln.first, ln.second); break; }
   case 9: { auto ls = lines_of(doc); auto &ln = ls[pick_line(doc, ls, g)]; std::string line = doc.substr(ln.first, ln.second); f.kind = "dup_line"; f.what = elem_of(line); doc.insert(ln.first, line); break; }
